@@ -51,6 +51,7 @@ class Esc:
 
 # ---- catalogue ------------------------------------------------------------------------------------------------
 CALL_CATALOGUE: dict[str, tuple[type, ...]] = {
+    "open": (OSError,),
     "int": (ValueError, TypeError, OverflowError),
     "float": (ValueError, TypeError, OverflowError),
     "decimal.Decimal": (decimal.InvalidOperation, ValueError, TypeError),
@@ -77,6 +78,14 @@ METHOD_CATALOGUE: dict[str, tuple[type, ...]] = {
     "strftime": (ValueError,),
     "index": (ValueError,),
     "fromtimestamp": (OverflowError, OSError, ValueError),
+    # file system probes and reads (pathlib.Path / file objects): the file can vanish, be unreadable, or hold bytes that are not text
+    "stat": (OSError,),
+    "is_file": (OSError,),
+    "is_dir": (OSError,),
+    "exists": (OSError,),
+    "open": (OSError,),
+    "read_text": (OSError, UnicodeDecodeError),
+    "read_bytes": (OSError,),
 }
 
 
@@ -250,7 +259,15 @@ class Escapes:
                 elif isinstance(n.func, ast.Attribute) and n.func.attr in ("feed", "close", "goahead") and self._is_html_parser(fi, n.func.value):
                     # html.parser / _markupbase raise AssertionError on malformed declarations and marked sections ('<![x]>')
                     out.append((n, AssertionError, f".{n.func.attr}() of an html.parser.HTMLParser on {ast.unparse(n.func.value)[:30]}"))
+                elif isinstance(n.func, ast.Attribute) and n.func.attr == "run_in_executor" and len(n.args) >= 2 and isinstance(n.args[1], ast.Attribute) and n.args[1].attr in METHOD_CATALOGUE and self.resolve_call(fi, ast.Call(func=n.args[1], args=list(n.args[2:]), keywords=[])) in (None, []):
+                    # a bound method handed to the executor is called there; its exception comes back through the await
+                    for t in METHOD_CATALOGUE[n.args[1].attr]:
+                        out.append((n, t, f".{n.args[1].attr}() on {ast.unparse(n.args[1].value)[:30]} (run in executor)"))
+                elif isinstance(n.func, ast.Attribute) and n.func.attr == "read" and not n.args and isinstance(n.func.value, ast.Name) and self._is_text_file(fi, n.func.value.id):
+                    out.append((n, UnicodeDecodeError, f".read() of the text file {n.func.value.id}"))
                 elif isinstance(n.func, ast.Attribute) and n.func.attr in METHOD_CATALOGUE and not isinstance(n.func.value, ast.Constant):
+                    if n.func.attr in ("stat", "is_file", "is_dir", "exists", "open", "read_text", "read_bytes") and self.resolve_call(fi, n) not in (None, []):
+                        continue  # a liquid2 method of that name: followed as a call
                     if n.func.attr == "index" and not n.args:
                         continue
                     if n.func.attr in ("encode", "decode"):
@@ -281,6 +298,45 @@ class Escapes:
                     out.append((n, IndexError, f"{ast.unparse(n)[:40]}"))
         out.extend(self._typed_sites(fi))
         return out
+
+    def _is_text_file(self, fi: FunctionInfo, name: str) -> bool:
+        """*name* is bound by `with <x>.open(...)/open(...) as name` without a binary mode."""
+        for w in ast.walk(fi.node):
+            if isinstance(w, (ast.With, ast.AsyncWith)):
+                for it in w.items:
+                    c = it.context_expr
+                    if isinstance(it.optional_vars, ast.Name) and it.optional_vars.id == name and isinstance(c, ast.Call) and ((isinstance(c.func, ast.Attribute) and c.func.attr == "open") or (isinstance(c.func, ast.Name) and c.func.id == "open")):
+                        modes = [a.value for a in c.args if isinstance(a, ast.Constant) and isinstance(a.value, str)] + [k.value.value for k in c.keywords if k.arg == "mode" and isinstance(k.value, ast.Constant)]
+                        return not any("b" in m for m in modes if isinstance(m, str) and len(m) <= 3)
+        return False
+
+    def _length_guarded(self, fi: FunctionInfo, sub: ast.Subscript) -> bool:
+        """The read sits behind a comparison with the length of the same value: an earlier operand of the same `and` chain, or the
+        test of an enclosing if / while / conditional expression whose true branch holds the read."""
+        mod = fi.module
+        target = ast.unparse(sub.value)
+        length_names = {target_len for target_len in [f"len({target})"]}
+        for a in ast.walk(fi.node):
+            if isinstance(a, ast.Assign) and isinstance(a.value, ast.Call) and ast.unparse(a.value) == f"len({target})":
+                length_names |= {t.id for t in a.targets if isinstance(t, ast.Name)}
+
+        def mentions_length(e: ast.AST) -> bool:
+            return any(isinstance(c, ast.Compare) and any(ast.unparse(x) in length_names for x in ast.walk(c)) for c in ast.walk(e))
+
+        child: ast.AST = sub
+        for a in mod.ancestors(sub):
+            if isinstance(a, ast.BoolOp) and isinstance(a.op, ast.And):
+                idx = next((i for i, v in enumerate(a.values) if any(child is x for x in ast.walk(v))), None)
+                if idx and any(mentions_length(v) for v in a.values[:idx]):
+                    return True
+            if isinstance(a, (ast.If, ast.While)) and any(child is x for b in a.body for x in ast.walk(b)) and mentions_length(a.test) and not (isinstance(a.test, ast.UnaryOp) and isinstance(a.test.op, ast.Not)):
+                return True
+            if isinstance(a, ast.IfExp) and any(child is x for x in ast.walk(a.body)) and mentions_length(a.test):
+                return True
+            if a is fi.node:
+                break
+            child = a
+        return False
 
     def _is_html_parser(self, fi: FunctionInfo, recv: ast.AST) -> bool:
         """recv is a local bound to `Cls(...)` (or `self` inside Cls) where Cls derives from html.parser.HTMLParser."""
@@ -415,6 +471,11 @@ class Escapes:
             elif isinstance(n, ast.BinOp) and isinstance(n.op, ast.Mod) and T.of(fi, n.left) == "str":
                 for x in n.right.elts if isinstance(n.right, ast.Tuple) else [n.right]:
                     big(x, "%-format", n)
+            elif isinstance(n, ast.Subscript) and isinstance(n.ctx, ast.Load) and not isinstance(n.slice, (ast.Slice, ast.Constant)) and not (isinstance(n.slice, ast.UnaryOp) and isinstance(n.slice.operand, ast.Constant)) and not (isinstance(n.value, ast.Attribute) and n.value.attr == "source"):
+                # computed-index read of a value declared str / list / tuple / Sequence: IndexError unless a length test guards it
+                vt = T.of(fi, n.value)
+                if vt is not None and (vt in ("str", "list", "tuple", "bytes") or vt.startswith(("list[", "tuple[", "Sequence", "List[", "Tuple["))) and not self._length_guarded(fi, n):
+                    out.append((n, IndexError, f"{ast.unparse(n)[:40]} (computed index)"))
             elif isinstance(n, ast.Compare) and len(n.ops) == 1 and isinstance(n.ops[0], (ast.In, ast.NotIn)):
                 needle, hay = n.left, n.comparators[0]
                 ht = T.of(fi, hay)
@@ -578,8 +639,9 @@ class Escapes:
                 if m is not None:
                     out.append(m)
                 for sub in prog.subclasses(cls, strict=True):
-                    if name in sub.methods and sub.methods[name] not in out:
-                        out.append(sub.methods[name])
+                    sm = prog.find_method(sub, name)  # MRO-aware: a mixin listed before the base overrides it
+                    if sm is not None and sm not in out:
+                        out.append(sm)
                 if out:
                     return out
                 # attribute holding a callable / class attribute
@@ -598,7 +660,12 @@ class Escapes:
             if isinstance(rr, ClassInfo):
                 m = prog.find_method(rr, name)
                 if m is not None:
-                    return [m] + [s.methods[name] for s in prog.subclasses(rr, strict=True) if name in s.methods]
+                    outs = [m]
+                    for s_ in prog.subclasses(rr, strict=True):
+                        sm = prog.find_method(s_, name)
+                        if sm is not None and sm not in outs:
+                            outs.append(sm)
+                    return outs
         # typed receivers
         tname = None
         if isinstance(recv, ast.Name) and recv.id in self.TYPED:
@@ -618,8 +685,9 @@ class Escapes:
                 if m is not None:
                     out.append(m)
                 for sub in prog.subclasses(ci, strict=True):
-                    if name in sub.methods and sub.methods[name] not in out:
-                        out.append(sub.methods[name])
+                    sm = prog.find_method(sub, name)
+                    if sm is not None and sm not in out:
+                        out.append(sm)
                 return out
         # polymorphic AST protocol calls on untyped receivers
         if name in ("render", "render_async") and not (len(c.args) == 2 and not c.keywords):
@@ -681,6 +749,14 @@ class Escapes:
                     callees = [m for m in fi.cls.methods.values() if m.node.returns is not None and "StateFn" in ast.unparse(m.node.returns)]
                 if isinstance(c.func, ast.Name) and c.func.id in ("load_func",):
                     callees = [g for g in self.by_name.get("load", []) + self.by_name.get("load_async", []) if g.cls is not None]
+                # a function handed to the executor runs there and its exception comes back through the await
+                if isinstance(c.func, ast.Attribute) and c.func.attr == "run_in_executor" and len(c.args) >= 2:
+                    deferred = self.resolve_call(fi, ast.Call(func=c.args[1], args=list(c.args[2:]), keywords=[]))
+                    if deferred:
+                        callees = list(callees) + list(deferred)
+                # Template.is_up_to_date[_async] call the freshness closure a loader stored with partial(self._uptodate…, …)
+                if isinstance(c.func, ast.Attribute) and c.func.attr == "uptodate" and not c.args:
+                    callees = list(callees) + [g for nm in ("_uptodate", "_uptodate_async") for g in self.by_name.get(nm, [])]
                 if callees:
                     lst.append((c, callees))
                     work.extend(callees)
